@@ -105,6 +105,16 @@ pub fn run_random(seed: u64, count: usize, out: &mut dyn Write) {
                 Err(p) => json!({"panic": panic_msg(p)}),
             };
         }
+        // ... and the same map comes back from a source that hands the bytes over in pieces of 1, 2, 3 bytes (the Read
+        // contract allows short reads; files, pipes and decompressors make them)
+        if i % 4 == 3 && ev["write"] == "ok" {
+            let mut src = crate::faults::ScheduledReader::new(&buf, vec![1, 2, 3], vec![]);
+            ev["back_pieces"] = match catch_unwind(AssertUnwindSafe(|| Attributes::from_reader(&mut src))) {
+                Ok(Ok(a)) => json!({"read": "ok", "map": attributes(&a, &RefMap::new())}),
+                Ok(Err(e)) => json!({"read": "err", "detail": format!("{:?}", e)}),
+                Err(p) => json!({"read": "panic", "detail": panic_msg(p)}),
+            };
+        }
         if i % 4 == 1 && ev["write"] == "ok" {
             ev["files"] = stored_blobs(&[a.clone(), gen::attributes_any(&mut rng), gen::attributes_any(&mut rng)]);
         }
